@@ -419,17 +419,43 @@ def r1_5(run):
     run.analysed(f)
     ki, k = hook_summary(ix, eg, "extract_results", {"fluid.is_gas": False}, {"mode": PyVal("hydraulics"), "options": PyVal({})})
     wr = [x for x in ki.res_writes if x["column"] == "mdot_kg_per_s"]
-    ok = len(wr) == 1
-    if ok:
+    w = run.where(f, f.node)
+    run.ob("ext_grid|report|single-write", len(wr) == 1, "one store into res_ext_grid.mdot_kg_per_s", w)
+    if len(wr) == 1:
+        from ..algebra import apply_fn, poly_from_key
+        from ..phys import ncol
         v = phys.tonum(wr[0]["value"]).plain()
-        ok = v is not None
-        txt = str(v)
-        ok = ok and "MDOTSLACKINIT" in txt and "unique1" in txt and "gather" in txt
         sel = wr[0]["selector"]
-        ok = ok and ("in_service" in str(sel)) and ("isin" in str(sel))
-    run.ob("ext_grid|report", ok,
-           "ext-grid mass flow = slack mass flow of its node divided by the number of pressure grids there, written for "
-           "in-service pressure grids only", run.where(f, f.node), detail=str(wr[0]["value"])[:300] if wr else None)
+        run.ob("ext_grid|report|selector", "in_service" in str(sel) and "isin" in str(sel),
+               "written for in-service pressure grids only", run.where(wr[0]["fi"], wr[0]["node"]), detail=str(sel)[:200])
+        # the node index array X of the written rows: argument of the inverse permutation of np.unique
+        xs = set()
+
+        def find(k):
+            if isinstance(k, tuple):
+                if len(k) >= 3 and k[0] == "app" and isinstance(k[1], str) and k[1].startswith("unique"):
+                    xs.add(k[2])
+                for i in k:
+                    find(i)
+        if v is not None:
+            find(v.key())
+        ok = v is not None and len(xs) == 1
+        if not ok:
+            raise AnalysisError("ExtGrid.extract_results: the reported mass flow is not expressed through np.unique of one "
+                                "index array (%s)" % str(wr[0]["value"])[:200])
+        X = poly_from_key(list(xs)[0])
+        run.ob("ext_grid|report|nodes-of-own-junctions",
+               X == Poly.sym("pos", "node_index", "junction", Poly.sym("tbl", "ext_grid", "junction").key()),
+               "the index array is the node index of the ext grids' junctions", w, detail=str(X)[:200])
+        u0, u1, u2 = (apply_fn("unique%d" % i, [X]) for i in range(3))
+        slack = ncol("MDOTSLACKINIT", u0)
+        want = apply_fn("gather", [slack / u2, u1])
+        sgn = ix.method_const(eg, "sign")
+        want = want * Poly.const(sgn if isinstance(sgn, (int, float)) else 1)
+        check_equal(run, "ext_grid|report|slack-divided-by-multiplicity", g(v), g(want),
+                    "reported mass flow = sign * slack mass flow of the node / number of reporting ext grids at that node "
+                    "(np.unique counts of the same index array), so that the reports of one node add up to its slack mass flow",
+                    run.where(wr[0]["fi"], wr[0]["node"]))
     run.floor(20)
 
 
